@@ -1,0 +1,7 @@
+//go:build !verif
+
+package process
+
+// verifPoint marks a scheduling point for the verification harness.
+// Without the 'verif' build tag it does nothing (and is inlined away).
+func verifPoint(k int) {}
